@@ -24,6 +24,19 @@ theorem corner_obligations : ∀ dim ∈ Gen.cornerDims, checkCorners Gen.corner
 theorem max_alias : ∀ p ∈ Gen.accepted, ∃ o, Gen.maxOrder p.1 = some o ∧ (p.1, o) ∈ Gen.accepted := by
   decide
 
+/-- **the rejected part of the API**: on the whole probed range (dims 0..4, orders 0..6) the extracted table
+accepts exactly the pairs the running `gauss` accepts and rejects exactly the pairs it rejects, with the same
+error class; every accepted pair lies in the probed range and returns as many points / weights as the table
+lists. A pair that becomes accepted (like an unfinished `(3, 3)` branch) therefore either enters `Gen.accepted`
+— and must pass `table_obligations` — or breaks this obligation. -/
+theorem rejected_pairs_raise :
+    (∀ e ∈ Gen.observedRaise, apiShape (Gen.rule e.1 e.2.1) = .error e.2.2 ∧ (e.1, e.2.1) ∉ Gen.accepted) ∧
+    (∀ p ∈ Gen.probed, p ∈ Gen.accepted ∨ ∃ e ∈ Gen.observedRaise, (e.1, e.2.1) = p) ∧
+    (∀ p ∈ Gen.accepted, p ∈ Gen.probed) ∧
+    (∀ e ∈ Gen.observedAccept, (e.1, e.2.1) ∈ Gen.accepted ∧
+      apiShape (Gen.rule e.1 e.2.1) = .ok (e.2.2.1, e.2.2.2)) := by
+  decide
+
 /-- **C15 on `[-1,1]^dim`.** For every `(dim, order)` the API accepts: as many weights as points,
 `(order+1)^dim` points, positive weights summing to `2^dim`, and every monomial of per-variable degree
 `≤ 2(order+1)−1` is integrated exactly (`GaussSpec`, spelled out in `gauss_integrates_monomials`). -/
